@@ -145,6 +145,18 @@ func Dispatch(pt, count uint8, d Dialect) Kind {
 
 // DecodeFrame decodes exactly one well-framed packet (len(b) == 4*(length+1)) as the given kind.
 func DecodeFrame(b []byte, k Kind, d Dialect) (Packet, error) {
+	return decodeFrame(b, k, d, false)
+}
+
+// DecodeFrameLenient is DecodeFrame as a tolerant receiver would apply it: octets whose value
+// the RFC prescribes for the sender but which carry no information (the alignment padding after
+// an SDES chunk's terminator, the always-zero media SSRC of REMB) are not inspected. What it rejects is a frame whose own counts and
+// lengths contradict each other or the frame's size.
+func DecodeFrameLenient(b []byte, k Kind, d Dialect) (Packet, error) {
+	return decodeFrame(b, k, d, true)
+}
+
+func decodeFrame(b []byte, k Kind, d Dialect, lenient bool) (Packet, error) {
 	h, err := ParseHdr(b)
 	if err != nil {
 		return Packet{}, err
@@ -185,7 +197,7 @@ func DecodeFrame(b []byte, k Kind, d Dialect) (Packet, error) {
 				c.Items = append(c.Items, SDESItem{Type: t, Text: r.take(n)})
 			}
 			for r.err == nil && r.pos%4 != 0 {
-				if r.u8() != 0 {
+				if r.u8() != 0 && !lenient {
 					r.err = bad("non-null SDES chunk padding")
 				}
 			}
@@ -248,7 +260,7 @@ func DecodeFrame(b []byte, k Kind, d Dialect) (Packet, error) {
 		p.FIR = v
 	case KREMB:
 		v := &REMB{Sender: r.u32()}
-		if r.u32() != 0 && r.err == nil {
+		if r.u32() != 0 && r.err == nil && !lenient {
 			r.err = bad("REMB media SSRC not 0")
 		}
 		if string(r.take(4)) != "REMB" && r.err == nil {
